@@ -632,3 +632,25 @@ Arguments Fail {A V X}.
 Arguments Ret {A V X} x.
 Arguments Rd {A V X} a k.
 Arguments Wr {A V X} a v k.
+
+(** Renaming of addresses (used to give each model type of an ow-sim generation
+    its own arrays). *)
+Section MapAddr.
+  Variables A B V : Type.
+  Variable f : A -> B.
+  Fixpoint map_addr {X} (p : prog A V X) : prog B V X :=
+    match p with
+    | Ret x => Ret x
+    | Fail => Fail
+    | Rd a k => Rd (f a) (fun v => map_addr (k v))
+    | Wr a v k => Wr (f a) v (map_addr k)
+    end.
+  Lemma fp_map_addr {X} (R W : A -> bool) (R' W' : B -> bool) (p : prog A V X) :
+    (forall a, R a = true -> R' (f a) = true) -> (forall a, W a = true -> W' (f a) = true) ->
+    fp R W p -> fp R' W' (map_addr p).
+  Proof.
+    intros HR HW. induction p; simpl; auto.
+    - intros [Ra F]. split; auto.
+    - intros [Wa F]. split; auto.
+  Qed.
+End MapAddr.
